@@ -32,6 +32,7 @@
  *   tty <0|1>                    is stdin a terminal
  *   tty1 <0|1>, tty2 <0|1>       is stdout / stderr a terminal (default: ask the kernel)
  *   stdinkind <1..4>             fstat(0) reports a regular file / fifo / character device / socket
+ *   stdinoffset <n>              regular-file stdin: n bytes were consumed before the program started
  *   stdin <hex>                  synthetic stdin content ("-" for empty)
  *   path <hex>                   the planned path
  *   file <hex>                   content served for the planned path through a memfd
@@ -79,6 +80,9 @@ static char *plan_path; static size_t plan_path_len;
 static unsigned char *file_buf; static size_t file_len; static int have_file; /* file_len: also set from fstat when the planned path is a real file */
 static char *real_path;
 static int planned_fd = -1;
+static int alias_fd = -1;       /* a descriptor obtained by opening /dev/stdin, /dev/fd/0 or /proc/self/fd/0 */
+static size_t alias_pos;        /* its own offset when stdin is a regular file (a fresh open file description) */
+static size_t stdin_offset;     /* regular-file stdin: how much of it had been consumed before the program started */
 static unsigned long n_getrandom;
 
 static ssize_t raw_write(int fd, const void *b, size_t n) { return syscall(SYS_write, fd, b, n); }
@@ -140,6 +144,7 @@ static void parse_plan(char *text) {
         if (!w) continue;
         if (!strcmp(w, "seed")) { char *a = strtok_r(NULL, " ", &sp); if (a) rng_state = strtoull(a, NULL, 10); }
         else if (!strcmp(w, "tty")) { char *a = strtok_r(NULL, " ", &sp); if (a) tty0 = atoi(a); }
+        else if (!strcmp(w, "stdinoffset")) { char *a = strtok_r(NULL, " ", &sp); if (a) stdin_offset = (size_t)atol(a); }
         else if (!strcmp(w, "stdinkind")) { char *a = strtok_r(NULL, " ", &sp); if (a) stdin_kind = atoi(a); }
         else if (!strcmp(w, "tty1")) { char *a = strtok_r(NULL, " ", &sp); if (a) tty1 = atoi(a); }
         else if (!strcmp(w, "tty2")) { char *a = strtok_r(NULL, " ", &sp); if (a) tty2 = atoi(a); }
@@ -177,6 +182,7 @@ static void ensure_init(void) {
     parse_plan(text);
     free(text);
     if (!sin_buf) { sin_buf = (unsigned char *)calloc(1, 1); sin_len = 0; }
+    if (stdin_kind == 1 && stdin_offset <= sin_len) sin_pos = stdin_offset; /* descriptor 0 continues where its previous user stopped */
     logf_("@START pid-independent\n");
 }
 
@@ -254,8 +260,10 @@ static ssize_t sim_read(int c, int fd, void *buf, size_t count) {
     } else if (dchunk[c] > 0 && (size_t)dchunk[c] < lim) { lim = (size_t)dchunk[c]; kind = "dchunk"; }
     ssize_t r;
     if (c == C_R0) {
-        size_t avail = sin_len - sin_pos; size_t k = avail < lim ? avail : lim;
-        memcpy(buf, sin_buf + sin_pos, k); sin_pos += k; r = (ssize_t)k;
+        /* a re-opened regular file has its own offset (starting at 0); a re-opened pipe or device shares the stream */
+        size_t *pp = (fd == alias_fd && alias_fd >= 0 && stdin_kind == 1) ? &alias_pos : &sin_pos;
+        size_t avail = sin_len - *pp; size_t k = avail < lim ? avail : lim;
+        memcpy(buf, sin_buf + *pp, k); *pp += k; r = (ssize_t)k;
     } else {
         do { r = raw_read(fd, buf, lim); } while (r < 0 && errno == EINTR);
     }
@@ -265,7 +273,7 @@ static ssize_t sim_read(int c, int fd, void *buf, size_t count) {
 ssize_t read(int fd, void *buf, size_t count) {
     ensure_init();
     if (active) {
-        if (fd == 0) return sim_read(C_R0, fd, buf, count);
+        if (fd == 0 || (fd == alias_fd && alias_fd >= 0)) return sim_read(C_R0, fd, buf, count);
         if (fd == planned_fd && planned_fd >= 0) return sim_read(C_RF, fd, buf, count);
     }
     return raw_read(fd, buf, count);
@@ -319,6 +327,18 @@ ssize_t writev(int fd, const struct iovec *iov, int iovcnt) {
 }
 
 /* ---- open -------------------------------------------------------------------- */
+static int is_stdin_alias(const char *path) {
+    return active == 1 && path && (!strcmp(path, "/dev/stdin") || !strcmp(path, "/dev/fd/0") || !strcmp(path, "/proc/self/fd/0"));
+}
+/* opening the standard input by name: a socket cannot be opened that way (ENXIO); anything else yields a descriptor
+ * that reads the simulated stream (its own offset 0 for a regular file, the shared stream for a pipe or device) */
+static int open_stdin_alias(void) {
+    if (stdin_kind == 4) { logf_("@O ret=-1 errno=%d kind=stdin-alias-socket\n", ENXIO); errno = ENXIO; return -1; }
+    int fd = (int)syscall(SYS_openat, AT_FDCWD, "/dev/null", O_RDONLY, 0);
+    if (fd >= 0) { alias_fd = fd; alias_pos = 0; }
+    logf_("@O ret=%d kind=stdin-alias\n", fd >= 0 ? 0 : -1);
+    return fd;
+}
 static int is_planned(const char *path) {
     return active == 1 && plan_path && path && strlen(path) == plan_path_len && !memcmp(path, plan_path, plan_path_len);
 }
@@ -350,29 +370,34 @@ int open(const char *path, int flags, ...) {
     ensure_init();
     mode_t mode = 0; if (flags & (O_CREAT | O_TMPFILE)) { va_list ap; va_start(ap, flags); mode = (mode_t)va_arg(ap, int); va_end(ap); }
     if (is_planned(path)) return sim_open(path, flags);
+    if (is_stdin_alias(path)) return open_stdin_alias();
     return (int)syscall(SYS_openat, AT_FDCWD, path, flags, mode);
 }
 int open64(const char *path, int flags, ...) {
     ensure_init();
     mode_t mode = 0; if (flags & (O_CREAT | O_TMPFILE)) { va_list ap; va_start(ap, flags); mode = (mode_t)va_arg(ap, int); va_end(ap); }
     if (is_planned(path)) return sim_open(path, flags);
+    if (is_stdin_alias(path)) return open_stdin_alias();
     return (int)syscall(SYS_openat, AT_FDCWD, path, flags | O_LARGEFILE, mode);
 }
 int openat(int dirfd, const char *path, int flags, ...) {
     ensure_init();
     mode_t mode = 0; if (flags & (O_CREAT | O_TMPFILE)) { va_list ap; va_start(ap, flags); mode = (mode_t)va_arg(ap, int); va_end(ap); }
     if (is_planned(path)) return sim_open(path, flags);
+    if (is_stdin_alias(path)) return open_stdin_alias();
     return (int)syscall(SYS_openat, dirfd, path, flags, mode);
 }
 int openat64(int dirfd, const char *path, int flags, ...) {
     ensure_init();
     mode_t mode = 0; if (flags & (O_CREAT | O_TMPFILE)) { va_list ap; va_start(ap, flags); mode = (mode_t)va_arg(ap, int); va_end(ap); }
     if (is_planned(path)) return sim_open(path, flags);
+    if (is_stdin_alias(path)) return open_stdin_alias();
     return (int)syscall(SYS_openat, dirfd, path, flags | O_LARGEFILE, mode);
 }
 int close(int fd) {
     ensure_init();
     if (active == 1 && fd == planned_fd && fd >= 0) { planned_fd = -1; logf_("@C planned\n"); }
+    if (active == 1 && fd == alias_fd && fd >= 0) alias_fd = -1;
     return (int)syscall(SYS_close, fd);
 }
 
